@@ -84,6 +84,10 @@ def writeDiscreteLookup (u : Option String) (d : DiscreteLookup) : LoadM XmlNode
   let contents := if d.criteria.length > 1 then [mkEl u "ComparisonList" [] cs] else cs
   pure (mkEl u "DiscreteLookup" [("value", v)] contents)
 
+/-- `str(coefficient)`: ints print without a fractional part. -/
+def showCoef (t : PolyTerm) : LoadM String :=
+  if t.isInt && t.coef.den == 1 then .ok (toString t.coef.num) else showFloat (.fin t.coef)
+
 def writeCalibrator (u : Option String) : Calibrator → LoadM XmlNode
   | .spline s => do
     let pts ← s.points.mapM (fun p => do
@@ -91,7 +95,7 @@ def writeCalibrator (u : Option String) : Calibrator → LoadM XmlNode
     pure (mkEl u "SplineCalibrator" [("order", toString s.order), ("extrapolate", pyBool s.extrapolate)] pts)
   | .poly ts => do
     let terms ← ts.mapM (fun t => do
-      pure (mkEl u "Term" [("exponent", toString t.exp), ("coefficient", ← showFloat (.fin t.coef))] []))
+      pure (mkEl u "Term" [("exponent", toString t.exp), ("coefficient", ← showCoef t)] []))
     pure (mkEl u "PolynomialCalibrator" [] terms)
 
 def writeContextCalibrator (u : Option String) (c : ContextCalibrator) : LoadM XmlNode := do
@@ -140,8 +144,8 @@ def writeEncoding (u : Option String) : Encoding → LoadM XmlNode
       | x => x
     -- the byte order of a multi-byte encoding is written when the object recorded one
     let attrs := [("encoding", e.encoding)] ++
-      (if singleByteEncodings.contains e.encoding then []
-       else match e.byteOrder with | some b => [("byteOrder", b)] | none => [])
+      (if e.encoding == "UTF-16" || e.encoding == "UTF-32"
+       then [("byteOrder", e.byteOrder.getD "None")] else [])
     pure (mkEl u "StringDataEncoding" attrs [sizeEl])
   | .bin e => do
     if optTruthy e.fixedSize then
@@ -167,8 +171,8 @@ def writeParameterType (u : Option String) (t : LPType) : LoadM XmlNode := do
       | some (.poly cs) => do
         let sc := (cs.filter (·.exp == 1)).head?
         let off := (cs.filter (·.exp == 0)).head?
-        let s ← match sc with | some c => do pure [("scale", ← showFloat (.fin c.coef))] | none => pure []
-        let o ← match off with | some c => do pure [("offset", ← showFloat (.fin c.coef))] | none => pure []
+        let s ← match sc with | some c => do pure [("scale", ← showCoef c)] | none => pure []
+        let o ← match off with | some c => do pure [("offset", ← showCoef c)] | none => pure []
         pure (s, o)
       | some _ => throw Err.value
       | none => pure ([], [])
